@@ -19,9 +19,12 @@ ASSUMPTIONS = ["the log-density of the affine families is quadratic, so central 
                "KS tests at family-wise level 1e-5 with a confirming second stage (8x draws, level 1e-6)"]
 
 
-def quad_moments(logd, n, h=1.0):
-    """mean-equation and Hessian of a quadratic log-density by exact central differences: returns (g0, H)
-    with grad logd(0) = g0 and -hessian = H."""
+def quad_moments(logd0, n, h=1.0, centre=None):
+    """mean-equation and Hessian of a quadratic log-density by exact central differences around `centre` with step h (the
+    step must be of the order of the distribution's scale and the centre near its mean, otherwise the second differences
+    are lost in round-off): returns (g0, H) with grad logd(0) = g0 (extrapolated, exact for quadratics) and -hessian = H."""
+    ctr = np.zeros(n) if centre is None else np.asarray(centre, dtype=float).reshape(n)
+    logd = lambda z: logd0(ctr + z)
     f0 = logd(np.zeros(n))
     g = np.zeros(n)
     H = np.zeros((n, n))
@@ -35,7 +38,7 @@ def quad_moments(logd, n, h=1.0):
         for j in range(i + 1, n):
             v = (logd(E[i] + E[j]) - logd(E[i] - E[j]) - logd(-E[i] + E[j]) + logd(-E[i] - E[j])) / (4 * h * h)
             H[i, j] = H[j, i] = -v
-    return g, H
+    return g + H @ ctr, H
 
 
 def affine_map(dist, n, N=1):
@@ -57,18 +60,18 @@ def affine_map(dist, n, N=1):
     return k, k_total, draw
 
 
-def quad_moments_from_gradient(grad, n):
+def quad_moments_from_gradient(grad, n, h=1.0):
     """same as quad_moments but from the object's own gradient (used when the normalised log-density is refused)"""
     g0 = np.asarray(grad(np.zeros(n)), dtype=float).reshape(-1)
     H = np.zeros((n, n))
     for i in range(n):
         e = np.zeros(n)
-        e[i] = 1.0
-        H[:, i] = g0 - np.asarray(grad(e), dtype=float).reshape(-1)
+        e[i] = h
+        H[:, i] = (g0 - np.asarray(grad(e), dtype=float).reshape(-1)) / h
     return g0, (H + H.T) / 2
 
 
-def check_affine_law(dist, n, logd, rec, what, tol, intrinsic=False, log_transform=False, moments=None, reg=0.0):
+def check_affine_law(dist, n, logd, rec, what, tol, intrinsic=False, log_transform=False, moments=None, reg=0.0, h=1.0):
     k, k_total, draw = affine_map(dist, n, 1)
     tr = (lambda v: np.log(np.asarray(v, dtype=float))) if log_transform else (lambda v: np.asarray(v, dtype=float))
     s0 = must(lambda: draw(np.zeros(k_total)), f"{what}: sample(1)")
@@ -82,12 +85,14 @@ def check_affine_law(dist, n, logd, rec, what, tol, intrinsic=False, log_transfo
         B[:, i] = tr(draw(e)).reshape(n) - a
     e = np.cos(1.0 + np.arange(k_total))
     require(close(tr(draw(e)).reshape(n), a + B @ e, 1e-8), f"{what}: sample is not an affine function of the normal draws")
-    g0, H = moments if moments is not None else quad_moments(logd, n)
+    g0, H = moments if moments is not None else quad_moments(logd, n, h=h, centre=a)
     C = B @ B.T
     scale = max(1.0, np.abs(H).max())
     if not intrinsic:
-        require(close(H @ a, g0, tol), f"{what}: offset of the draws is not the mean implied by the log-density", a=a,
-                mean=np.linalg.solve(H, g0))
+        # Newton step from the draws' offset to the mode of the log-density, in units of the distribution's scale h
+        delta = np.linalg.solve(H, g0 - H @ a)
+        require(float(np.max(np.abs(delta))) <= max(tol * max(1.0, np.linalg.cond(H)), 1e-7) * max(h, 1e-3 * float(np.max(np.abs(a)))) + 1e-8 * float(np.max(np.abs(a))),
+                f"{what}: offset of the draws is not the mean implied by the log-density", a=a, mean=a + delta)
         require(close(C @ H, np.eye(n), tol * max(1.0, np.linalg.cond(H))),
                 f"{what}: covariance of the draws is not the inverse Hessian of the log-density (max err {maxdiff(C, np.linalg.inv(H)):.3g})",
                 cov_draws=C, cov_density=np.linalg.inv(H))
@@ -177,8 +182,9 @@ def run_gauss(c, rec):
                 rec.count("logd_and_gradient_refused")
                 return
             rec.count("density_from_gradient")
-            moments = quad_moments_from_gradient(d.gradient, n)
-        check_affine_law(d, n, lambda x: float(np.asarray(d.logd(x)).reshape(-1)[0]), rec, "Gaussian", tol, moments=moments)
+            moments = quad_moments_from_gradient(d.gradient, n, h=10.0 ** c.get("scale_pow", 0))
+        check_affine_law(d, n, lambda x: float(np.asarray(d.logd(x)).reshape(-1)[0]), rec, "Gaussian", tol, moments=moments,
+                         h=10.0 ** c.get("scale_pow", 0))
         check_shapes_and_stream(d, n, rec, "Gaussian")
         # several draws: column j depends on column j of the normal array only
         k, k_total, draw = affine_map(d, n, 3)
@@ -343,7 +349,62 @@ def refusal_cases(draw, tier="quick"):
             "N": draw(st.integers(1, 3))}
 
 
+# ----------------------------------------------------------------------------- draws after parameters were re-assigned
+
+def run_resample(c, rec):
+    """a distribution that has already been sampled and is then given new parameter values must sample like a freshly built
+    distribution with those values (same generator state -> same draws); the fresh object's law is decided by the affine-law
+    sub-checks"""
+    import cuqi
+    kind, s1, s2 = c["kind"], c["s1"], c["s2"]
+    tags = {"kind": kind}
+    if kind == "gmrf":
+        tags.update(bc=s1["bc"], order=s1["order"], pd=s1["pd"])
+    if kind == "gaussian":
+        tags.update(param=s1["param"], structure=s2["structure"], structure_before=s1["structure"])
+    if rec.classify(tags, True):
+        return
+    old = cuqi.config.MIN_DIM_SPARSE
+    try:
+        if kind == "gaussian" and s1["sparse_switch"] == "above":
+            cuqi.config.MIN_DIM_SPARSE = 1
+        refused, d1 = refuses(lambda: c04._build_any(kind, s1))
+        refused2, d2 = refuses(lambda: c04._build_any(kind, s2))
+        if refused or refused2:
+            rec.count("construction_refused")
+            return
+        refused, _ = refuses(lambda: (d1.sample(1, rng=np.random.RandomState(3)), d1.sample(2, rng=np.random.RandomState(4))))
+        if refused:
+            rec.count("sampling_refused")
+            return
+        for name in [v for v in d1.get_mutable_variables() if not v.startswith("_")]:
+            refused, _ = refuses(lambda: setattr(d1, name, getattr(d2, name)))
+            if refused:
+                rec.count("assignment_refused")
+                return
+        for N in (1, 3):
+            refused, want = refuses(lambda: d2.sample(N, rng=np.random.RandomState(9)))
+            if refused:
+                rec.count("fresh_object_refuses")
+                return
+            got = must(lambda: d1.sample(N, rng=np.random.RandomState(9)), "sampling after re-assigning the parameters")
+            gv = np.asarray(got.samples if N > 1 else got, dtype=float)
+            wv = np.asarray(want.samples if N > 1 else want, dtype=float)
+            require(gv.shape == wv.shape and close(gv, wv, 1e-9),
+                    f"{kind}: draws made after new parameter values were assigned to an already sampled object are not the draws of a fresh "
+                    f"object with those values (N={N})", got=gv, want=wv)
+    finally:
+        cuqi.config.MIN_DIM_SPARSE = old
+
+
+@st.composite
+def resample_cases(draw, tier="quick"):
+    c = draw(c04.reassign_cases(tier).filter(lambda c: c["kind"] != "family"))
+    return c
+
+
 SUBCHECKS = [
+    SubCheck("C05/resample_after_reassign", run_resample, strategy=resample_cases, n={"quick": 400, "thorough": 8000}, shards={"quick": 4, "thorough": 16}),
     SubCheck("C05/gaussian_affine_law", run_gauss, strategy=c04.gauss_cases, n={"quick": 600, "thorough": 10000},
              shards={"quick": 4, "thorough": 16}),
     SubCheck("C05/gmrf_affine_law", run_gmrf, strategy=c20.gmrf_cases, n={"quick": 300, "thorough": 5000},
